@@ -135,7 +135,9 @@ def wr3(p, res):
     return n_src
 
 
-COL_NAMES = {"glwe_add_into", "glwe_sub", "glwe_negate", "glwe_copy", "glwe_rotate", "glwe_mul_xp_minus_one", "glwe_lsh", "glwe_rsh", "glwe_normalize"}
+COL_NAMES = {"glwe_add_into", "glwe_sub", "glwe_negate", "glwe_copy", "glwe_rotate", "glwe_mul_xp_minus_one", "glwe_lsh", "glwe_rsh", "glwe_normalize",
+             # in-place forms whose untouched columns would be wrong: res = a - res must negate every column of res
+             "glwe_sub_negate_assign", "glwe_negate_assign"}
 VIEW_CORE = wr.VIEW_T + ("data_mut", "data")
 
 
